@@ -156,7 +156,7 @@ def tree_1(ctx, rep, only=None):
     rep.ob('TREE-1', PYTREE, 'Param.__init__', 'self.parent = parent after super().__init__(children)', ok,
            'Param does not record its parent / does not adopt its children')
     if not only:
-        rep.minimum('TREE-1', 8)
+        rep.minimum('TREE-1', 6)
 
 
 # ---------------------------------------------------------------------------
@@ -190,6 +190,7 @@ def tree_2(ctx, rep):
         m = nol.methods.get(name)
         if m is None:
             raise AnalysisError('anchor vanished: NodeOrLeaf.%s' % name)
+        m = ctx.view(m)                      # a shared "index by identity" helper is read in place
         cmps = [n for n in walk_own(m.node) if isinstance(n, ast.Compare) and 'self' in (norm(n.left), norm(n.comparators[0]))
                 and not (isinstance(n.comparators[0], ast.Constant))]
         ok = bool(cmps) and all(isinstance(c.ops[0], (ast.Is, ast.IsNot)) for c in cmps)
@@ -199,14 +200,17 @@ def tree_2(ctx, rep):
         m = nol.methods.get(name)
         if m is None:
             raise AnalysisError('anchor vanished: NodeOrLeaf.%s' % name)
+        m = ctx.view(m)                      # a direction-parameterised helper is read in place, its constants folded
         idx = [n for n in walk_own(m.node) if isinstance(n, ast.Call) and is_method_call(n, 'index')]
-        ok = len(idx) == 1 and norm(idx[0].args[0]) == 'node'
+        ok = len(idx) == 1 and isinstance(idx[0].args[0], ast.Name)
+        var = idx[0].args[0].id if ok else None
         # the step goes to the neighbour in the right direction and then descends to first/last child
-        nb = [n for n in walk_own(m.node) if isinstance(n, ast.Assign) and norm(n.targets[0]) == 'node'
+        nb = [n for n in walk_own(m.node) if isinstance(n, ast.Assign) and norm(n.targets[0]) == var
               and isinstance(n.value, ast.Subscript) and isinstance(n.value.slice, ast.BinOp)]
         ok = ok and len(nb) == 1 and isinstance(nb[0].value.slice.op, ast.Add if step == '+' else ast.Sub) \
             and norm(nb[0].value.slice.right) == '1'
-        desc = [n for n in walk_own(m.node) if isinstance(n, ast.Assign) and norm(n.value) == ('node.children[0]' if step == '+' else 'node.children[-1]')]
+        desc = [n for n in walk_own(m.node) if isinstance(n, ast.Assign) and norm(n.targets[0]) == var
+                and norm(n.value) == ('%s.children[0]' % var if step == '+' else '%s.children[-1]' % var)]
         rep.ob('TREE-2', TREE, m.qual, 'climb to an ancestor with a further sibling, step %s1, descend' % step,
                ok and len(desc) == 1, 'leaf stepping no longer moves to the adjacent sibling and descends to its first/last leaf')
     rep.minimum('TREE-2', 5)
@@ -230,11 +234,29 @@ def constructible_classes(ctx):
     return out
 
 
+def dump_formatter(ctx):
+    """The recursive function that renders one node for dump(): the closure of NodeOrLeaf.dump, or - when it was moved
+    out - the recursive module-level function dump() calls.  Small helpers it was split into are read in place."""
+    prog = ctx.prog
+    d = prog.func(TREE, 'NodeOrLeaf.dump')
+    cands = list(d.nested.values())
+    for n in walk_own(d.node):
+        if isinstance(n, ast.Call) and isinstance(n.func, ast.Name):
+            t = prog.resolve_global(d.mod, n.func.id)
+            if isinstance(t, Func) and t.mod is d.mod and t not in cands:
+                cands.append(t)
+    rec = [g for g in cands if any(isinstance(c, ast.Call) and isinstance(c.func, ast.Name) and c.func.id == g.name
+                                   for c in walk_own(g.node))]
+    if len(rec) != 1:
+        raise AnalysisError('anchor vanished: the recursive formatter of NodeOrLeaf.dump (%d candidates)' % len(rec))
+    return ctx.view(rec[0], keep=(rec[0].name,))
+
+
 def tree_3(ctx, rep):
     rep.rule('TREE-3', 'for every tree class the parser can instantiate, the argument list dump() prints for its '
                        'category binds against the MRO-resolved __init__, and the class name is public in parso.python.tree')
     prog = ctx.prog
-    dump = prog.func(TREE, 'NodeOrLeaf.dump._format_dump')
+    dump = dump_formatter(ctx)
     src = norm(dump.node, 5000)
     anchors = ['isinstance(node, Leaf)', 'isinstance(node, ErrorLeaf)', 'isinstance(node, TypedLeaf)',
                'isinstance(node, BaseNode)', 'isinstance(node, Node)', 'node.token_type', 'node.value', 'node.start_pos',
@@ -620,9 +642,16 @@ def tree_10(ctx, rep):
                         '(get_next_leaf, get_previous_leaf, get_first_leaf ...) substitutes another leaf for the located one')
     f = ctx.prog.func(TREE, 'BaseNode.get_leaf_for_position')
     funcs = [f] + list(f.nested.values())
+    # the search may be a private method of the class instead of a closure
+    sn = ctx.cg.self_name(f)
+    for n in walk_own(f.node):
+        if isinstance(n, ast.Call) and isinstance(n.func, ast.Attribute) and isinstance(n.func.value, ast.Name) \
+                and n.func.value.id == sn and n.func.attr.startswith('_') and f.cls is not None:
+            h = f.cls.lookup(n.func.attr)
+            if h is not None and h not in funcs and h.mod is f.mod:
+                funcs.append(h)
     names = {g.name for g in funcs}
     n_ret = 0
-    sn = ctx.cg.self_name(f)
     # names (of the method itself, visible in its closures) that hold the children list
     child_lists = {'%s.children' % sn}
     for n in walk_own(f.node):
@@ -652,6 +681,9 @@ def tree_10(ctx, rep):
                 fn = v.func
                 if isinstance(fn, ast.Name) and fn.id in names:
                     ok = True                                   # the search recursing on narrower bounds
+                elif isinstance(fn, ast.Attribute) and fn.attr in names and fn.attr != f.name and isinstance(fn.value, ast.Name) \
+                        and fn.value.id == sn:
+                    ok = True                                   # ... the search being a method
                 elif isinstance(fn, ast.Attribute) and fn.attr == f.name and isinstance(fn.value, ast.Name) and fn.value.id in located:
                     ok = True                                   # the same lookup on the located child
             rep.ob('TREE-10', TREE, g.qual, 'return %s' % norm(v), ok,
